@@ -94,7 +94,10 @@ def run_tlc(module, cfg_text, rundir, workers=1, env=None, extra=None, timeout=1
     f.write(cfg_text)
   meta = os.path.join(rundir, 'meta_' + module)
   shutil.rmtree(meta, ignore_errors=True)
-  cmd = ['java']
+  jtmp = os.path.join(rundir, 'jtmp_' + module)      # TLC's scratch files stay out of /tmp and go away with the run
+  shutil.rmtree(jtmp, ignore_errors=True)
+  os.makedirs(jtmp, exist_ok=True)
+  cmd = ['java', '-Djava.io.tmpdir=' + jtmp]
   if not (java_opts and any('GC' in o for o in java_opts)):
     cmd.append('-XX:+UseParallelGC')
   if java_opts:
@@ -126,6 +129,7 @@ def run_tlc(module, cfg_text, rundir, workers=1, env=None, extra=None, timeout=1
   r = TLCResult()
   r.cmd = ' '.join(cmd)
   r.wall_s = time.time() - t0
+  shutil.rmtree(jtmp, ignore_errors=True)
   r.stdout = p.stdout
   r.returncode = p.returncode
   with open(os.path.join(rundir, module + '.out'), 'w') as f:
